@@ -135,9 +135,28 @@ def reset_cache():
     _MODS.clear()
 
 
+REGION_SELECTORS = {}   # tag -> selector(FunctionDef) -> [stmt, ...]  (the real statement nodes of the function)
+
+
 def find_function(key, repo=None):
     """key = 'rel/path.py:func' | 'rel/path.py:Class.method' | 'rel/path.py:outer.<locals>.inner'
+             | '<any of those>#<region tag>'  (a statement region of the function, see REGION_SELECTORS)
     -> (ModuleInfo, ClassInfo|None, FunctionDef)"""
+    if "#" in key:
+        base, tag = key.split("#", 1)
+        mod, cls, node = find_function(base, repo)
+        stmts = list(REGION_SELECTORS[tag](node))
+        if not stmts:
+            raise KeyError("region %s not found in %s" % (tag, base))
+        # the region is verified as a parameterless function whose body *is* the selected statement nodes of the
+        # current source; its free variables are typed by the contract (`types`)
+        fn = ast.FunctionDef(name="%s#%s" % (node.name, tag),
+                             args=ast.arguments(posonlyargs=[], args=[], vararg=None, kwonlyargs=[], kw_defaults=[],
+                                                kwarg=None, defaults=[]),
+                             body=stmts, decorator_list=[], returns=None, type_comment=None)
+        fn.lineno, fn.col_offset = stmts[0].lineno, stmts[0].col_offset
+        fn.end_lineno, fn.end_col_offset = stmts[-1].end_lineno, stmts[-1].end_col_offset
+        return mod, cls, fn
     relpath, qual = key.split(":", 1)
     mod = load_module(relpath, repo)
     parts = [p for p in qual.split(".") if p != "<locals>"]
